@@ -1,8 +1,8 @@
 SPECIFICATION Spec
 CONSTANTS
-  Files = {1}
+  Files = {1, 2}
   Texts = {3}
-  Classes = {"io", "simple", "proto", "stop", "remote"}
+  Classes = {"io", "simple", "proto", "panic", "timeout", "stop", "remote"}
   MaxInject = 1
   MaxNoise = 0
   WithBg = FALSE
@@ -10,5 +10,4 @@ CONSTANTS
   AsCoded = FALSE
   Mutant = "none"
 INVARIANTS TypeOK ToldAtMostOnce ToldUnlessPeerKnows KindMatchesTraceback ShownIsSent OnlyCreated TermResetOnce DrainBounded
-
 CHECK_DEADLOCK FALSE
